@@ -111,7 +111,14 @@ func (r RaceReport) TouchesCue() bool {
 
 // CheckRaceLogs turns the race reports under prefix into violations
 // (cue frames) or an inconclusive verdict (harness-only races).
-func (r *Run) CheckRaceLogs(prefix string) {
+func (r *Run) CheckRaceLogs(prefix string) { r.CheckRaceLogsAs(prefix, "") }
+
+// RaceClass, if set, maps the stack-pair key of a report to the key of a recorded root cause ("" = none).
+var RaceClass func(stackPair string) string
+
+// CheckRaceLogsAs is CheckRaceLogs with one violation key for every report (a recorded root cause shared by all
+// processes that log under prefix); key "" keys every report by its stack pair.
+func (r *Run) CheckRaceLogsAs(prefix, key string) {
 	reps := ParseRaceLogs(prefix)
 	r.Count("race_reports", int64(len(reps)))
 	seen := map[string]bool{}
@@ -125,6 +132,18 @@ func (r *Run) CheckRaceLogs(prefix string) {
 			continue
 		}
 		seen[k] = true
+		if key == "" && RaceClass != nil {
+			if ck := RaceClass(k); ck != "" {
+				r.Count("race_reports_attributed_to:"+ck, 1)
+				r.Violate(ck, "data race: "+k, map[string]any{"race_report": trunc(rep.Text, 6000)})
+				continue
+			}
+		}
+		if key != "" {
+			r.Count("race_reports_attributed_to:"+key, 1)
+			r.Violate(key, "data race: "+k, map[string]any{"race_report": trunc(rep.Text, 6000)})
+			continue
+		}
 		r.Violate(r.Prop+"|race|"+k, "data race: "+k, map[string]any{"race_report": trunc(rep.Text, 6000)})
 	}
 	r.Count("race_distinct_stack_pairs", int64(len(seen)))
